@@ -475,12 +475,18 @@ def vf_all(it):
     return True
 
 
+RUN_TUPLE = [None]     # set by model: tuple subclass for operand tuples that contain a Run
+
+
 def vf_tuple(*a):
     if a:
         h = getattr(type(a[0]), "__vf_tuple__", None)
         if h is not None:
             return h(a[0])
-    return builtins.tuple(*a)
+    t = builtins.tuple(*a)
+    if RUN_TUPLE[0] is not None and any(getattr(type(x), "__vf_run__", False) for x in t):
+        return RUN_TUPLE[0](t)
+    return t
 
 
 def vf_list(*a):
